@@ -14,6 +14,13 @@ macro_rules! src {
 macro_rules! model_prelude {
     () => { use tokio::Now as _; };
 }
+macro_rules! ssrc {
+    ("wbfunction.rs") => { include!("/verif/kani/sync/gen/wbfunction.rs"); };
+    ("lf_types.rs") => { include!("/verif/kani/sync/gen/lf_types.rs"); };
+    ("leader_fns.rs") => { include!("/verif/kani/sync/gen/leader_fns.rs"); };
+    ("follower_fns.rs") => { include!("/verif/kani/sync/gen/follower_fns.rs"); };
+    ("lib_fns.rs") => { include!("/verif/kani/sync/gen/lib_fns.rs"); };
+}
 macro_rules! aw {
     ($e:expr) => { $e };
 }
@@ -84,116 +91,7 @@ macro_rules! wb_harnesses {
         include!("/verif/kani/sync/src/h/wbside.rs");
     };
 }
-include!("/verif/kani/wb/src/body_core.rs");
-
-pub use config::Config;
-pub use worterbuch::Worterbuch;
-
-pub mod error {
-    include!("/repo/worterbuch/src/error.rs");
-}
-pub mod server {
-    pub mod common {
-        use tokio::sync::{mpsc, oneshot};
-        use tracing::Span;
-        use worterbuch_common::{
-            CasVersion, ClientId, GraveGoods, Key, KeyValuePairs, LastWill, LiveOnlyFlag, PStateEvent, Protocol,
-            ProtocolMajorVersion, ProtocolVersion, RegularKeySegment, RequestPattern, StateEvent, SubscriptionId,
-            TransactionId, UniqueFlag, Value, ValueEntry, error::WorterbuchResult,
-        };
-        use crate::Config;
-        use std::net::SocketAddr;
-        include!("/verif/kani/sync/gen/wbfunction.rs");
-    }
-}
-pub mod leader_follower {
-    use crate::store::StoreNode;
-    use serde::{Deserialize, Serialize};
-    use worterbuch_common::{CasVersion, GraveGoods, Key, LastWill, RequestPattern, Value};
-    include!("/verif/kani/sync/gen/lf_types.rs");
-
-    pub mod leader {
-        use crate::{
-            Config, INTERNAL_CLIENT_ID, Worterbuch,
-            error::WorterbuchAppResult,
-            forward_api_call, forward_to_followers,
-            leader_follower::{ClientWriteCommand, LeaderSyncMessage, Mode, StateSync},
-            process_api_call,
-            server::common::WbFunction,
-        };
-        use std::ops::ControlFlow;
-        use tokio::Now as _;
-        use tokio::sync::{mpsc, oneshot};
-        use tracing::{Level, debug, error, info, span};
-        use worterbuch_common::{KeySegment, PStateEvent, ValueEntry};
-        include!("/verif/kani/sync/gen/leader_fns.rs");
-
-        /// crate-visible entry points for the harness module (the sliced functions are private, as in the repo)
-        pub(crate) mod x {
-            use super::*;
-            type Txs = Vec<(usize, mpsc::Sender<ClientWriteCommand>)>;
-            pub(crate) fn grave_goods_change(r: Option<PStateEvent>, t: &mut Txs, d: &mut Vec<usize>) -> WorterbuchAppResult<ControlFlow<()>> {
-                try_forward_grave_goods_change(r, t, d)
-            }
-            pub(crate) fn last_will_change(r: Option<PStateEvent>, t: &mut Txs, d: &mut Vec<usize>) -> WorterbuchAppResult<ControlFlow<()>> {
-                try_forward_last_will_change(r, t, d)
-            }
-            pub(crate) fn api_call(r: Option<WbFunction>, w: &mut Worterbuch, t: &mut Txs, d: &mut Vec<usize>) -> WorterbuchAppResult<ControlFlow<()>> {
-                try_forward_api_call(r, w, t, d)
-            }
-            pub(crate) fn follower_connected(
-                r: Option<oneshot::Sender<(StateSync, mpsc::Receiver<ClientWriteCommand>)>>,
-                w: &mut Worterbuch,
-                t: &mut Txs,
-                c: &Config,
-                id: &mut usize,
-            ) -> WorterbuchAppResult<ControlFlow<()>> {
-                try_forward_follower_connected(r, w, t, c, id)
-            }
-        }
-    }
-    pub mod follower {
-        use crate::{
-            Config, INTERNAL_CLIENT_ID, Worterbuch,
-            error::{WorterbuchAppError, WorterbuchAppResult},
-            leader_follower::{ClientWriteCommand, LeaderSyncMessage, Mode, StateSync},
-            server::common::WbFunction,
-        };
-        use serde_json::json;
-        use std::ops::ControlFlow;
-        use tokio::Now as _;
-        use tracing::{debug, error, info, trace};
-        use worterbuch_common::{SYSTEM_TOPIC_MODE, SYSTEM_TOPIC_ROOT, error::WorterbuchError};
-        include!("/verif/kani/sync/gen/follower_fns.rs");
-
-        pub(crate) mod x {
-            use super::*;
-            pub(crate) fn sync(st: StateSync, w: &mut Worterbuch) -> WorterbuchAppResult<()> {
-                initial_sync(st, w)
-            }
-            pub(crate) fn leader_message(m: LeaderSyncMessage, w: &mut Worterbuch) -> WorterbuchAppResult<()> {
-                process_leader_message(m, w)
-            }
-            pub(crate) fn api_call(w: &mut Worterbuch, f: WbFunction) {
-                process_api_call(w, f)
-            }
-        }
-    }
-}
-// functions of worterbuch/src/lib.rs
-use leader_follower::ClientWriteCommand;
-use server::common::WbFunction;
-use tokio::Now as _;
-use tokio::sync::mpsc;
-use tracing::Instrument;
-use worterbuch_common::{SYSTEM_TOPIC_ROOT_PREFIX, error::WorterbuchError};
-include!("/verif/kani/sync/gen/lib_fns.rs");
-
-#[cfg(kani)]
-mod h {
-    use super::*;
-    include!("/verif/kani/sync/src/h/c11.rs");
-}
+include!("/verif/kani/sync/src/body.rs");
 
 #[cfg(kani)]
 #[kani::proof]
